@@ -69,7 +69,7 @@ Cmd parse_cmd(const std::string& tok) {
     c.body = std::stoi(f.at(4));
     break;
   case 'C': case 'W': case 'X': c.id = std::stoi(f.at(1)); break;
-  case 'D': c.oi = f.at(1) == "1"; break;
+  case 'D': c.oi = f.at(1) == "1"; break;  // an optional third field (observed dispatch choices) is for the model only
   case 'L': break;
   default: throw std::runtime_error("cmd");
   }
@@ -162,6 +162,17 @@ std::string intr_bits(Case& cs) {
   return s;
 }
 
+// per thread: <normal queue size>.<interrupt queue size>.<has_callbacks><has_interrupt_callbacks>
+std::string queue_state(Case& cs) {
+  std::string s;
+  for (size_t i = 0; i < cs.threads.size(); i++) {
+    auto& t = cs.threads[i];
+    s += (i ? "," : "") + std::to_string(std::size(t->m_callbacks)) + "." + std::to_string(std::size(t->m_interrupt_callbacks)) + "." +
+         (t->m_has_callbacks.load() ? "1" : "0") + (t->m_has_interrupt_callbacks.load() ? "1" : "0");
+  }
+  return s;
+}
+
 std::string run_case(const std::string& line) {
   auto parts = split_on(line, '/');
   if (parts.size() != 4) return "BADCASE";
@@ -208,7 +219,7 @@ std::string run_case(const std::string& line) {
       auto sr = ctrl.step(t);
       if (sr == Controller::HUNG) { std::cout << "ERR:hang thread " << t << " after " << l << std::endl; _exit(3); }
       if (sr != Controller::STEPPED) { out += " " + std::to_string(t) + ":-"; continue; }
-      out += " " + std::to_string(t) + ":" + l + ":" + words(cs) + ":" + intr_bits(cs);
+      out += " " + std::to_string(t) + ":" + l + ":" + words(cs) + ":" + intr_bits(cs) + ":" + queue_state(cs);
       for (size_t i = 0; i < cs.step_events.size(); i++) out += (i ? "+" : ":") + cs.step_events[i];
     }
     std::string fin;
@@ -227,8 +238,61 @@ std::string run_case(const std::string& line) {
 
 } // namespace
 
-int main(int, char**) {
+// --params: constants of the COMPILED code, measured by behaviour (no source text involved)
+static uint32_t g_probe_or = 0;
+static std::atomic<uint32_t>* g_probe_word = nullptr;
+static void probe_hook(const char*, const void*, uint32_t) { if (g_probe_word) g_probe_or |= g_probe_word->load(); }
+
+static int params_main() {
+  using namespace torrent::system;
+  HThread a, b;
+  Thread::m_self = &a;
+  {
+    auto id = make_callback_id();
+    a.cancel_callback(id);
+    std::cout << "c17_cancel_increment " << id->load() << "\n";
+    id->store(0);
+    a.cancel_callback_and_wait(id);
+    std::cout << "c17_cw_increment " << id->load() << "\n";
+    std::cout << "c17_id_word_bits " << sizeof(id->load()) * 8 << "\n";
+  }
+  uint32_t mask = 0;
+  for (uint32_t k = 1; k < 64 && mask == 0; k++) {
+    auto id = make_callback_id();
+    id->store(k);
+    try { b.callback(id, [] {}); } catch (const torrent::internal_error&) { mask = k; }
+  }
+  std::cout << "c17_count_mask " << mask << "\n";
+  {
+    // is bit 3 part of the expected value a queued callback remembers?  post with the bit set, clear it, dispatch
+    auto id = make_callback_id();
+    bool ran = false;
+    id->store(8);
+    a.callback(id, [&ran] { ran = true; });
+    id->store(0);
+    a.process_callbacks();
+    std::cout << "c17_expected_mask_inv " << (ran ? (mask | 8) : mask) << "\n";
+  }
+  {
+    // the flag the two-thread form sets transiently: OR of every value the id word takes at a schedule point
+    // during cancel_callback_and_wait(id, other) called from inside a callback of id, minus what is left afterwards
+    auto id = make_callback_id();
+    uint32_t after = 0;
+    g_probe_word = id.get();
+    torrent::verif::sched_hook.store(&probe_hook);
+    a.callback(id, [&] { a.cancel_callback_and_wait(id, &b); after = id->load(); });
+    a.process_callbacks();
+    torrent::verif::sched_hook.store(nullptr);
+    g_probe_word = nullptr;
+    std::cout << "c17_deadlock_flag " << (g_probe_or & ~after & ~mask) << "\n";
+  }
+  Thread::m_self = nullptr;
+  return 0;
+}
+
+int main(int argc, char** argv) {
   std_setup();
+  if (argc > 1 && std::string(argv[1]) == "--params") return params_main();
   std::string line;
   while (std::getline(std::cin, line)) {
     std::string r;
